@@ -478,3 +478,123 @@ func genDevFlip(r *rand.Rand) (*Universe, Opts) {
 	o := Opts{Strategy: "relax", DevDeps: false, MaxDepth: -1, MaxUpgrades: pick(r, []int{1, 1, 0}), NoIntroduce: r.Intn(4) == 0}
 	return u, o
 }
+
+// genAliasTwin: one real npm package required twice or three times - under its own name and under
+// one or two aliases - at different ranges, the vulnerable version reachable through only one of
+// them, in dependencies and devDependencies. Relaxing the vulnerable requirement must change that
+// requirement (same package AND same alias), in memory and on disk.
+func genAliasTwin(r *rand.Rand) (*Universe, Opts) {
+	p := pick(r, []string{"pa", "lib", "@sc/pm"})
+	other := "pq"
+	vers := []string{"1.0.0", "1.1.0", "2.0.0", "2.0.1", "2.1.0", "3.0.0"}
+	var sb strings.Builder
+	sb.WriteString(p + "\n")
+	for _, v := range vers {
+		sb.WriteString("\t" + v + "\n")
+	}
+	sb.WriteString(other + "\n\t1.0.0\n\t2.0.0\n")
+	u := &Universe{Sys: "npm", File: "package.json", NameSafe: true, Schema: sb.String(),
+		Pkgs: []string{p, other}, Versions: map[string][]string{p: vers, other: {"1.0.0", "2.0.0"}}, Direct: []string{p, other}}
+	// two or three requirement slots for the one package: its own name and aliases that sort
+	// before and after it; every slot has its own range, so the copies resolve to different versions
+	names := []string{p, "a-" + strings.Trim(strings.ReplaceAll(p, "/", "-"), "@") + "-legacy", "zz-alias"}
+	n := 2 + r.Intn(2)
+	slots := r.Perm(3)[:n]
+	ranges := []string{"1.0.0", "^1.0.0", "~1.0.0", "~2.0.0", "^2.0.0", "2.0.0", "^3.0.0", "3.0.0"}
+	secs := map[string][]string{}
+	// all copies of the package go into "dependencies": the reader merges devDependencies and
+	// optionalDependencies into the requirement list by PackageKey alone (the alias is not part of
+	// that lookup), iterating over Go maps - a copy in those sections replaces another copy, and
+	// which one survives differs from read to read (observed on the unchanged tree; reported). The
+	// other package of the universe may sit in either section.
+	twinSec := "dependencies"
+	used := map[string]bool{}
+	for _, s := range slots {
+		req := pick(r, ranges)
+		for used[req] {
+			req = pick(r, ranges)
+		}
+		used[req] = true
+		if names[s] != p {
+			req = "npm:" + p + "@" + req
+		}
+		secs[twinSec] = append(secs[twinSec], fmt.Sprintf("    %q: %q", names[s], req))
+	}
+	if r.Intn(2) == 0 {
+		otherSec := pick(r, []string{"dependencies", "devDependencies"})
+		secs[otherSec] = append(secs[otherSec], fmt.Sprintf("    %q: %q", other, "^1.0.0"))
+	}
+	var ms strings.Builder
+	ms.WriteString("{\n  \"name\": \"root\",\n  \"version\": \"1.0.0\"")
+	for _, sec := range []string{"dependencies", "devDependencies"} {
+		if len(secs[sec]) > 0 {
+			ms.WriteString(",\n  \"" + sec + "\": {\n" + strings.Join(secs[sec], ",\n") + "\n  }")
+		}
+	}
+	ms.WriteString("\n}\n")
+	u.Manifest = ms.String()
+	// vulnerabilities in disjoint version windows, so that each copy can have its own
+	pool := []GenVuln{
+		{Pkg: p, Introduced: "0", Fixed: "1.1.0"},
+		{Pkg: p, Introduced: "0", Fixed: "2.0.0"},
+		{Pkg: p, Introduced: "2.0.0", Fixed: "2.1.0"},
+		{Pkg: p, Introduced: "2.0.0", Fixed: "3.0.0"},
+		{Pkg: p, Introduced: "1.0.0", Fixed: ""}, // never fixed
+		{Pkg: other, Introduced: "0", Fixed: "2.0.0"},
+	}
+	for _, i := range r.Perm(len(pool))[:1+r.Intn(3)] {
+		v := pool[i]
+		v.ID = fmt.Sprintf("V-%03d", 100+r.Intn(800))
+		if i == 4 {
+			v.Introduced, v.Versions = "", []string{"1.0.0"}
+		}
+		u.Vulns = append(u.Vulns, v)
+	}
+	o := Opts{Strategy: "relax", DevDeps: true, MaxDepth: -1, MaxUpgrades: pick(r, []int{1, 1, 0})}
+	return u, o
+}
+
+// genMavenTestScope: a pom with a compile-scope dependency that has a fixable vulnerability and a
+// test-scope dependency whose subtree holds another one; DevDeps on or off. With DevDeps off the
+// test-only vulnerability is outside the analysis - in the original graph and in every patched one.
+func genMavenTestScope(r *rand.Rand) (*Universe, Opts) {
+	a, t, p := "org.g:aa", "org.g:tt", "org.g:pp"
+	deep := r.Intn(3) != 0 // the vulnerable package is below the test dependency, or is the test dependency itself
+	var sb strings.Builder
+	sb.WriteString(a + "\n\t1.0\n\t1.1\n\t2.0\n")
+	if deep {
+		sb.WriteString(t + "\n\t1.0\n\t\t" + p + "@1.0\n")
+		sb.WriteString(p + "\n\t1.0\n\t2.0\n")
+	} else {
+		sb.WriteString(t + "\n\t1.0\n\t2.0\n")
+	}
+	u := &Universe{Sys: "maven", File: "pom.xml", NameSafe: true, Schema: sb.String(), Pkgs: []string{a, t, p},
+		Versions: map[string][]string{a: {"1.0", "1.1", "2.0"}, t: {"1.0"}, p: {"1.0", "2.0"}}, Direct: []string{a, t}}
+	dep := func(name, ver, scope string) string {
+		ga := strings.Split(name, ":")
+		s := fmt.Sprintf("    <dependency>\n      <groupId>%s</groupId>\n      <artifactId>%s</artifactId>\n      <version>%s</version>\n", ga[0], ga[1], ver)
+		if scope != "" {
+			s += "      <scope>" + scope + "</scope>\n"
+		}
+		return s + "    </dependency>\n"
+	}
+	deps := []string{dep(a, "1.0", ""), dep(t, "1.0", "test")}
+	if r.Intn(2) == 0 {
+		deps[0], deps[1] = deps[1], deps[0]
+	}
+	u.Manifest = "<project>\n  <modelVersion>4.0.0</modelVersion>\n  <groupId>org.root</groupId>\n  <artifactId>root</artifactId>\n  <version>1.0.0</version>\n  <dependencies>\n" +
+		strings.Join(deps, "") + "  </dependencies>\n</project>\n"
+	vt := t
+	if deep {
+		vt = p
+	}
+	idA := fmt.Sprintf("V-%03d", 100+r.Intn(400))
+	idT := fmt.Sprintf("V-%03d", 500+r.Intn(400))
+	u.Vulns = []GenVuln{{ID: idA, Pkg: a, Introduced: "0", Fixed: pick(r, []string{"1.1", "2.0"})}, {ID: idT, Pkg: vt, Introduced: "0"}}
+	if r.Intn(3) == 0 {
+		u.Vulns[1].Fixed = "2.0"
+	}
+	o := Opts{Strategy: "override", DevDeps: r.Intn(3) == 0, MaxDepth: -1, MaxUpgrades: pick(r, []int{1, 1, 0}), NoIntroduce: r.Intn(3) == 0,
+		MavenManagement: r.Intn(3) == 0}
+	return u, o
+}
